@@ -17,7 +17,7 @@ pub const FLOORS: &[&str] = &[
     "label:goto_offset", "label:print", "label_colon", "label_own_line", "multibyte_in_source",
     "origin:default", "origin:other", "origin:ge8000", "image_straddles_8000", "break_or_orig_interleaved",
     "assembly_after_memory_was_modified", "label_like_register_with_digits", "break_table_row", "break_table_row_truncated",
-    "break_table_row_multibyte", "break_table_row_without_statement",
+    "break_table_row_multibyte", "break_table_row_without_statement", "image_crosses_fe00",
 ];
 
 pub fn run(cfg: &Cfg, col: &mut Collector) {
@@ -42,8 +42,10 @@ fn one_case(seed: u64, i: u64) -> CaseOut {
     let mut out = CaseOut::new();
     let mut rng = Rng::for_case(seed, "C17", i);
     let stack = rng.bool();
-    let origin = match rng.below(6) {
+    let origin = match rng.below(7) {
         0 => None,
+        // the image runs across xFE00: the assembler allows it, and those words have source text too
+        6 => Some(0xFDE8 + rng.below(0x18) as i32),
         1 => Some(0x7FF0 + rng.below(0xF) as i32),
         2 => Some(0x8000 + rng.below(0x7000) as i32),
         _ => Some(gen_origin(&mut rng).clamp(2, 0xF800)),
@@ -79,9 +81,12 @@ fn one_case(seed: u64, i: u64) -> CaseOut {
             return out;
         }
     };
-    if img.origin() as usize + img.words.len() > 0xFDF0 {
+    if img.origin() as usize + img.words.len() > 0xFFF0 {
         out.evals = 0;
         return out;
+    }
+    if img.origin() as usize + img.words.len() > 0xFE00 {
+        out.class("image_crosses_fe00");
     }
     let lay = if rng.chance(1, 4) { Layout::canonical() } else { Layout::random(&mut rng) };
     let rendered = render(&p, &lay, &mut rng);
